@@ -890,10 +890,11 @@ def correspondence(ctx, budget=None):
     # (d) inside a session's teardown: Server.close() / a second close() / other sessions' ends at every point of the window
     gated_cfgs = [dict(make_cfg(1, "ab", 1, 1), gated=True), dict(make_cfg(2, "ab", 1, 2), gated=True)]
     if thorough:
-        gated_cfgs.append(dict(make_cfg(2, "a_anon", 1, 1), gated=True))
+        gated_cfgs[1] = dict(make_cfg(2, "a_anon", 1, 1), gated=True)
+        gated_cfgs.append(dict(make_cfg(2, "ab", 1, 2), gated=True))
     tg = teardown_gated(rng, None if thorough else 12)
     for ci, c in enumerate(gated_cfgs):
-        for s in tg if (ci == 0 or thorough) else rng.sample(tg, len(tg) // 3):
+        for s in tg if ci == 0 or (thorough and ci == 1) else rng.sample(tg, len(tg) // 3):
             jobs.append(("teardown-gated", c, s, False))
     ts = teardown_sweep(24 if thorough else 14, [None, 0, 1, 2, 3, 5] if thorough else [None, 0, 2])
     for c in [make_cfg(1, "ab", 1, 1)] + ([make_cfg(2, "ab", 1, 2), make_cfg(2, "a_anon", 1, 1)] if thorough else []):
